@@ -476,7 +476,7 @@ pub fn bytes_to_string<'b>(ctx: &mut Ctx, v: VSlot<'b, u8, u8>) -> Slot<'b> {
 pub const BYTE_CLASSES: [u8; 26] = [
     0x00, 0x41, 0x7F, 0x80, 0x8F, 0x90, 0x9F, 0xA0, 0xBF, 0xC0, 0xC1, 0xC2, 0xDF, 0xE0, 0xE1, 0xEC, 0xED, 0xEE, 0xEF, 0xF0, 0xF1, 0xF3, 0xF4, 0xF5, 0xF8, 0xFF,
 ];
-pub const U16_CLASSES: [u16; 9] = [0, 0x41, 0xD7FF, 0xD800, 0xDBFF, 0xDC00, 0xDFFF, 0xE000, 0xFFFF];
+pub const U16_CLASSES: [u16; 13] = [0, 0x41, 0x7F, 0x80, 0x7FF, 0x800, 0xD7FF, 0xD800, 0xDBFF, 0xDC00, 0xDFFF, 0xE000, 0xFFFF];
 
 /// compare the three decoders on one byte string; returns a message on disagreement
 pub fn check_bytes(bump: &Bump, bytes: &[u8]) -> Option<String> {
@@ -486,7 +486,7 @@ pub fn check_bytes(bump: &Bump, bytes: &[u8]) -> Option<String> {
     let rt = std::str::from_utf8(bytes);
     match (&rs, &rt) {
         (Ok(s), Ok(t)) => {
-            if s.as_str() != *t {
+            if s.as_bytes() != t.as_bytes() {
                 return Some(format!("from_utf8({:02x?}) text differs", bytes));
             }
         }
@@ -504,11 +504,11 @@ pub fn check_bytes(bump: &Bump, bytes: &[u8]) -> Option<String> {
     }
     let ls = BString::from_utf8_lossy_in(bytes, bump);
     let lt = String::from_utf8_lossy(bytes);
-    if ls.as_str() != lt.as_ref() {
-        return Some(format!("from_utf8_lossy_in({:02x?}) = {:?}, std gives {:?}", bytes, ls.as_str(), lt));
-    }
     if std::str::from_utf8(ls.as_bytes()).is_err() {
-        return Some(format!("from_utf8_lossy_in({:02x?}) produced invalid UTF-8", bytes));
+        return Some(format!("from_utf8_lossy_in({:02x?}) produced invalid UTF-8: {:02x?}", bytes, ls.as_bytes()));
+    }
+    if ls.as_bytes() != lt.as_bytes() {
+        return Some(format!("from_utf8_lossy_in({:02x?}) = {:?}, std gives {:?}", bytes, ls.as_str(), lt));
     }
     None
 }
@@ -516,9 +516,15 @@ pub fn check_bytes(bump: &Bump, bytes: &[u8]) -> Option<String> {
 pub fn check_u16(bump: &Bump, units: &[u16]) -> Option<String> {
     let rs = BString::from_utf16_in(units, bump);
     let rt = String::from_utf16(units);
+    // validity first, on the bytes: text that is not UTF-8 must never be formatted or compared as a str
+    if let Ok(s) = &rs {
+        if std::str::from_utf8(s.as_bytes()).is_err() {
+            return Some(format!("from_utf16_in({:04x?}) produced invalid UTF-8: {:02x?}", units, s.as_bytes()));
+        }
+    }
     match (rs, rt) {
         (Ok(s), Ok(t)) => {
-            if s.as_str() != t {
+            if s.as_bytes() != t.as_bytes() {
                 Some(format!("from_utf16_in({:04x?}) = {:?}, std gives {:?}", units, s.as_str(), t))
             } else {
                 None
@@ -625,6 +631,29 @@ pub fn decoder_sweep(tier: Tier, idx: u32, nworkers: u32) -> SweepOut {
         };
         rec16(&mut buf, 5, &mut f);
         bump.reset();
+    }
+    // (4) every single u16 unit, alone and with a class unit before / after it
+    for u in 0..=0xFFFFu32 {
+        if u % nworkers != idx {
+            continue;
+        }
+        let u = u as u16;
+        let mut one = |seq: &[u16]| {
+            n_u16 += 1;
+            if let Some(m) = check_u16(&bump, seq) {
+                if u16_mismatch.len() < 3 {
+                    u16_mismatch.push((m, json!({"kind": "u16", "units": seq})));
+                }
+            }
+        };
+        one(&[u]);
+        for &c in U16_CLASSES.iter() {
+            one(&[c, u]);
+            one(&[u, c]);
+        }
+        if u % 1024 == 0 {
+            bump.reset();
+        }
     }
     out.viol.extend(u16_mismatch);
     out.evaluations = n_bytes + n_u16;
